@@ -49,7 +49,7 @@ fn shapes() -> Vec<(String, Value)> {
     ]})], vec![])));
     // one object per keyword-like field name (so that a failure names the keyword)
     for kw in ["as", "async", "await", "break", "const", "continue", "crate", "dyn", "else", "enum", "extern", "false", "fn", "for", "if", "impl", "in", "let", "loop", "match", "mod", "move", "mut", "pub", "ref", "return", "self", "static", "struct", "super", "trait", "true", "type", "unsafe", "use", "where", "while", "abstract", "become", "box", "do", "final", "macro", "override", "priv", "try", "typeof", "unsized", "virtual", "yield", "union", "builder", "build", "new", "default", "clone", "from", "into"] {
-        v.push((format!("field-named:{}", kw), ir(vec![obj("KwObject", vec![(kw, prim("STRING")), ("other", opt(prim("INTEGER")))]), uni("KwUnion", vec![(kw, prim("DOUBLE"))])], vec![], vec![])));
+        v.push((format!("field-named:{}", kw), ir(vec![obj("KwObject", vec![(kw, prim("STRING")), ("other", opt(prim("INTEGER")))]), obj("KwOptObject", vec![("first", prim("BOOLEAN")), (kw, opt(prim("STRING")))]), obj("KwListObject", vec![(kw, list(prim("DOUBLE")))]), uni("KwUnion", vec![(kw, prim("DOUBLE"))])], vec![], vec![])));
     }
     v
 }
